@@ -103,7 +103,8 @@ impl Rule {
             }
         }
 
-        variables.sort_by(|(key_a, _), (key_b, _)| key_b.len().cmp(&key_a.len()));
+        // longest name first; names of equal length in a fixed (alphabetical) order
+        variables.sort_by(|(key_a, _), (key_b, _)| key_b.len().cmp(&key_a.len()).then_with(|| key_a.cmp(key_b)));
 
         variables
     }
